@@ -15,6 +15,26 @@ import (
 
 type externalFn func(fr *frame, args []value) value
 
+// notHandled is returned by an external that only implements a fast path; the
+// function body is then interpreted as usual.
+type notHandled struct{}
+
+// concreteBytes returns the bytes of b[:n] if all of them are concrete.
+func concreteBytes(b []value, n int) ([]byte, bool) {
+	if len(b) < n {
+		return nil, false
+	}
+	out := make([]byte, n)
+	for k := 0; k < n; k++ {
+		v, ok := b[k].(uint8)
+		if !ok {
+			return nil, false
+		}
+		out[k] = v
+	}
+	return out, true
+}
+
 // reflectStub stands for a reflect.Type; all its methods return zero values.
 type reflectStub struct{}
 
@@ -131,6 +151,8 @@ func init() {
 			}
 			return args[1]
 		},
+		"verifNative": func(fr *frame, args []value) value { return false },
+		"verifNativeSleep": func(fr *frame, args []value) value { return nil },
 		"verifReach": func(fr *frame, args []value) value {
 			fr.i.reached[args[0].(string)]++
 			return nil
@@ -272,6 +294,67 @@ func init() {
 				return norm(types.Typ[types.Int], r)
 			}
 			panic("bits.LeadingZeros64: bad argument")
+		},
+		// fast paths for fully concrete operands (the bodies are interpreted otherwise)
+		"(*hash/fnv.sum32a).Write": func(fr *frame, args []value) value {
+			p, ok := args[0].(*value)
+			if !ok || p == nil {
+				return notHandled{}
+			}
+			h, ok := (*p).(uint32)
+			if !ok {
+				return notHandled{}
+			}
+			data := args[1].([]value)
+			bs, ok := concreteBytes(data, len(data))
+			if !ok {
+				return notHandled{}
+			}
+			for _, c := range bs {
+				h ^= uint32(c)
+				h *= 16777619
+			}
+			*p = h
+			fr.i.steps += int64(len(bs))
+			return tuple{len(bs), iface{}}
+		},
+		"(encoding/binary.littleEndian).Uint64": func(fr *frame, args []value) value {
+			b := args[1].([]value)
+			bs, ok := concreteBytes(b, 8)
+			if !ok {
+				return notHandled{}
+			}
+			return uint64(bs[0]) | uint64(bs[1])<<8 | uint64(bs[2])<<16 | uint64(bs[3])<<24 | uint64(bs[4])<<32 | uint64(bs[5])<<40 | uint64(bs[6])<<48 | uint64(bs[7])<<56
+		},
+		"(encoding/binary.littleEndian).Uint32": func(fr *frame, args []value) value {
+			b := args[1].([]value)
+			bs, ok := concreteBytes(b, 4)
+			if !ok {
+				return notHandled{}
+			}
+			return uint32(bs[0]) | uint32(bs[1])<<8 | uint32(bs[2])<<16 | uint32(bs[3])<<24
+		},
+		"(encoding/binary.littleEndian).PutUint64": func(fr *frame, args []value) value {
+			b := args[1].([]value)
+			v, ok := args[2].(uint64)
+			if !ok || len(b) < 8 {
+				return notHandled{}
+			}
+			for k := 0; k < 8; k++ {
+				b[k] = uint8(v >> (8 * k))
+			}
+			return nil
+		},
+		"(encoding/binary.littleEndian).PutUint32": func(fr *frame, args []value) value {
+			b := args[1].([]value)
+			v, ok := args[2].(uint32)
+			if !ok || len(b) < 4 {
+				return notHandled{}
+			}
+			for k := 0; k < 4; k++ {
+				b[k] = uint8(v >> (8 * k))
+			}
+			return nil
 		},
 		"runtime.Gosched": func(fr *frame, args []value) value {
 			fr.i.block(nil, "Gosched")
